@@ -641,6 +641,118 @@ def _safe_local(name, f, ctx, depth):
     return True, "global name"
 
 
+
+def _literal_hazards(g, prog):
+    """Which of the two characters that can end or alter a triple-quoted literal (backslash 'bs', double quote 'q') can
+    reach each returned text of the escaping emitter unescaped.  Returns [(return node, hazards)]; None when unreadable."""
+    if not g.params:
+        return None
+    param = g.params[0].name
+    out = []
+    unreadable = [False]
+
+    def is_replace(e, a, b):
+        return isinstance(e, ast.Call) and isinstance(e.func, ast.Attribute) and e.func.attr == "replace" and len(e.args) == 2 \
+            and all(isinstance(x, ast.Constant) for x in e.args) and e.args[0].value == a and e.args[1].value == b
+
+    def hz(e, env):
+        if isinstance(e, ast.Name):
+            return set(env.get(e.id, ()))
+        if isinstance(e, ast.Constant):
+            return set()
+        if is_replace(e, "\\", "\\\\"):
+            return hz(e.func.value, env) - {"bs"}
+        if is_replace(e, '"', '\\"'):
+            inner = hz(e.func.value, env)
+            return inner - {"q"} if "bs" not in inner else inner
+        if isinstance(e, (ast.GeneratorExp, ast.ListComp, ast.SetComp)):
+            env2 = dict(env)
+            for gen in e.generators:
+                h = hz(gen.iter, env2)
+                for t in ast.walk(gen.target):
+                    if isinstance(t, ast.Name):
+                        env2[t.id] = h
+            return hz(e.elt, env2)
+        if isinstance(e, ast.Compare) or (isinstance(e, ast.Call) and dotted(e.func) in ("len", "isinstance", "bool", "ord", "repr")):
+            return set()
+        if isinstance(e, ast.IfExp):
+            return hz(e.body, env) | hz(e.orelse, env)
+        acc = set()
+        for c in ast.iter_child_nodes(e):
+            if isinstance(c, ast.expr):
+                acc |= hz(c, env)
+            elif isinstance(c, ast.keyword):
+                acc |= hz(c.value, env)
+        return acc
+
+    def refine(test, pol, env):
+        env = dict(env)
+        for t, p_ in flatten_guard(test, pol):
+            c = cmp_atom(t, p_)
+            # `ch not in text` (true) removes the hazard of that character from the tested name
+            if isinstance(t, ast.Compare) and len(t.ops) == 1 and isinstance(t.comparators[0], ast.Name) \
+                    and isinstance(t.left, ast.Constant) and t.left.value in ("\\", '"'):
+                absent = isinstance(t.ops[0], ast.NotIn) == p_ if isinstance(t.ops[0], (ast.In, ast.NotIn)) else None
+                if absent:
+                    nm = t.comparators[0].id
+                    env[nm] = set(env.get(nm, ())) - {"bs" if t.left.value == "\\" else "q"}
+        return env
+
+    def run(stmts, env):
+        """returns env after the block, or None when every path exits"""
+        for st in stmts:
+            if isinstance(st, ast.Return):
+                out.append((st, hz(st.value, env) if st.value is not None else set()))
+                return None
+            if isinstance(st, ast.Raise):
+                return None
+            if isinstance(st, (ast.Assign, ast.AnnAssign, ast.AugAssign)):
+                if st.value is None:
+                    continue
+                h = hz(st.value, env)
+                tgts = st.targets if isinstance(st, ast.Assign) else [st.target]
+                for t in tgts:
+                    if isinstance(t, ast.Name):
+                        env[t.id] = (set(env.get(t.id, ())) | h) if isinstance(st, ast.AugAssign) else h
+                    else:
+                        unreadable[0] = True
+                continue
+            if isinstance(st, ast.If):
+                a = run(st.body, refine(st.test, True, env))
+                b = run(st.orelse, refine(st.test, False, env))
+                if a is None and b is None:
+                    return None
+                if a is None:
+                    env = b
+                elif b is None:
+                    env = a
+                else:
+                    env = {k: set(a.get(k, ())) | set(b.get(k, ())) for k in set(a) | set(b)}
+                continue
+            if isinstance(st, ast.Expr):
+                continue
+            if isinstance(st, (ast.For, ast.While)):
+                # two rounds reach the fixed point of a union-only transfer over two flags
+                for _ in range(3):
+                    env2 = dict(env)
+                    if isinstance(st, ast.For):
+                        h = hz(st.iter, env2)
+                        for t in ast.walk(st.target):
+                            if isinstance(t, ast.Name):
+                                env2[t.id] = h
+                    r = run(st.body, env2)
+                    if r is not None:
+                        env = {k: set(env.get(k, ())) | set(r.get(k, ())) for k in set(env) | set(r)}
+                continue
+            unreadable[0] = True
+        return env
+
+    run(view(g, prog).body, {param: {"bs", "q"}})
+    if unreadable[0]:
+        return None
+    return out
+
+
 def k5_core(ctx, res, funcs):
     n = 0
     for f in funcs:
@@ -689,8 +801,17 @@ def k5(ctx, res):
         for g in ctx.prog.find_funcs(name):
             src = norm(g.node)
             ok = ("replace('\\\\', '\\\\\\\\')" in src) and ("replace('\"', '\\\\\"')" in src)
-            res.check(ok, g, "escapes backslash and double quote",
-                      reason="the docstring emitter escapes the two characters that can end or alter a triple-quoted literal")
+            hz = _literal_hazards(g, ctx.prog)
+            if hz is None or not hz:
+                res.judge(True if ok else None, g, "escapes backslash and double quote",
+                          reason="the docstring emitter escapes the two characters that can end or alter a triple-quoted literal")
+                res.judge(None, g, "every returned literal is built from the escaped text")
+            else:
+                bad = [(r, h) for r, h in hz if h]
+                res.judge(not bad, g, "every returned literal is built from the escaped text",
+                          detail={"returns": len(hz), "unescaped": [{"line": r.lineno, "return": norm(r)[:80], "reaches_raw": sorted(h)} for r, h in bad]},
+                          reason="a backslash or double quote of the description reaches the generated literal without its escape "
+                                 "(a raw literal cannot end in a backslash either): the module no longer compiles or the docstring differs")
             # characters copied raw into the literal: decided over all code points
             from .rules_rna import _char_pred
             import sys as _sys
